@@ -141,7 +141,7 @@ def plot_burst_detect_summary(df_features, sig, fs, threshold_kwargs, xlim=None,
 
             last_cyc = int(cyc['sample_last_' + side_e]) - int(round(fs * start))
             next_cyc = int(cyc['sample_next_' + side_e]) - int(round(fs * start))
-            if cyc[column] < threshold_kwargs[osc_key] and last_cyc > 0:
+            if cyc[column] < threshold_kwargs[osc_key] and last_cyc > 0 and next_cyc < len(times):
                 axes[0].axvspan(times[last_cyc], times[next_cyc],
                  alpha=0.5, color=color, lw=0)
 
@@ -235,7 +235,7 @@ def plot_burst_detect_param(df_features, sig, fs, burst_param, thresh,
 
         # Remove start / end cycles that tlims falls between
         df_features = df_features[(df_features['sample_last_' + side_e] >= 0) & \
-                                  (df_features['sample_next_' + side_e] < xlim[1]*fs)]
+                                  (df_features['sample_next_' + side_e] < len(times))]
 
     # Plot burst param
     if interp:
